@@ -8,6 +8,17 @@ HERE = os.path.dirname(os.path.dirname(os.path.abspath(__file__)))
 HOOK_COMMITS = ["7e56da8"]
 
 CLAIMED = {
+    "C21": dict(
+        engine="simrt", category="exploration", design_ref="DESIGN.md section 4 (C21), 3.3, 3.4",
+        technique="deterministic simulation of OpenMP schedules: generated OKL kernels, real translators and g++, simulated OpenMP runtime (seeded team size, chunk-to-thread assignment, interleaving with scripted preemption), lockset race detection on the recorded trace, bit-exact comparison with the Serial translation",
+        text=("Generated OKL kernels (independent iterations by construction) are translated by the real serial and openmp parsers and "
+              "compiled by the real g++; the OpenMP object is linked against a simulated OpenMP runtime on the deterministic thread "
+              "scheduler, so team size (1-16), static/runtime/dynamic chunk assignment and the interleaving at atomics, critical sections "
+              "and memory accesses are seeded choices. Every configuration must give outputs bit-equal to the Serial translation's, "
+              "show no unordered conflicting access pair, and keep the guard-zone checker silent."),
+        note=("Race detection is lockset based on one traced execution per configuration. The schedule(runtime/dynamic) variants edit the "
+              "emitted pragma text. libgomp itself is not exercised (stub)."),
+    ),
     "C30": dict(
         engine="simrt", category="exploration", design_ref="DESIGN.md section 4 (C30), 3.3",
         technique="deterministic simulation of thread interleavings: real pthreads serialised by a scheduler behind the TSan compiler ABI, scripted preemption at instrumented memory accesses (race-directed from a traced dry run + random), quarantine heap checker",
